@@ -34,6 +34,11 @@ def run(tier, seed, res, lean):
     st = pmap(_static_shard, [(seed * 911 + i + 5, 30 if tier == 'quick' else 200) for i in range(shards)])
     for c in [c for o in st for c in o[1]][:4]:
         res.violations.append(Violation('c06-static-collision', c['msg'], {'suite': 'S-HASH-STATIC', **c}))
+    # External layers with a marker that names the field: different methods of the wrapped object have different static hashes
+    from .. import suite_external
+    ext = pmap(suite_external.run_shard, [(seed * 67 + i + 1, 4 if tier == 'quick' else 30) for i in range(16)])
+    for p in [p for o in ext for p in o[1] if p.get('kind') == 'static-collision'][:3]:
+        res.violations.append(Violation('c06-external', p['msg'][:400], {'suite': 'S-EXTERNAL', **p}))
     vm = merge_stats(pmap(_vm_shard, [(seed * 7333 + i + 11, 40 if tier == 'quick' else 200) for i in range(shards)]))
     if vm['static_vs_real_mismatch']:
         res.violations.append(Violation(
